@@ -47,21 +47,23 @@ class RenameLocals(ast.NodeTransformer):
         return f
 
 
-def rename_closure_vars(path):
+def rename_closure_vars(path, opaque=False):
     """Scope-aware renaming of every function-local variable (including those captured / rebound through
     `nonlocal` by nested functions) using the analyser's own scope resolution."""
     sys.path.insert(0, V)
     from sa.frontend import Module
     src = open(path).read()
     m = Module(path, os.path.basename(path), "m", src)
+    counter = 0
     for S in m.root.walk():
         if not S.is_func:
             continue
         for name, binds in list(S.binds.items()):
+            counter += 1
             kinds = {k for k, _ in binds}
             if kinds & {"param", "def", "class", "import", "except", "with"} or name.startswith("__") or name in S.globals_ or name in S.nonlocals:
                 continue
-            new = name + "_cv"
+            new = f"zq{counter}" if opaque else name + "_cv"
             users = [S] + [g for g in S.descendants() if (g.is_func or g.is_class)]
             for g in users:
                 if g is not S and (g.is_class or g.owner(name) is not S):
@@ -92,8 +94,8 @@ def transform(root, kind):
                 tree = InvertIf().visit(tree)
             elif kind == "rename":
                 tree = RenameLocals().visit(tree)
-            elif kind == "rename2":
-                out = rename_closure_vars(p)
+            elif kind in ("rename2", "rename3"):
+                out = rename_closure_vars(p, opaque=(kind == "rename3"))
                 compile(out, p, "exec")
                 open(p, "w").write(out + "\n")
                 n += 1
@@ -109,7 +111,7 @@ def transform(root, kind):
 def main():
     kinds = [a for a in sys.argv[1:] if not a.startswith("--")] or ["all"]
     if kinds == ["all"]:
-        kinds = ["unparse", "flipcmp", "invertif", "rename", "rename2"]
+        kinds = ["unparse", "flipcmp", "invertif", "rename", "rename2", "rename3"]
     bad = 0
     for kind in kinds:
         tmp = tempfile.mkdtemp(prefix="rxsa_rf_")
